@@ -12,8 +12,10 @@ import (
 	"fmt"
 	"os"
 	"path/filepath"
+	"runtime"
 	"sort"
 	"strings"
+	"sync"
 	"time"
 
 	"github.com/anz-bank/sysl/pkg/sysl"
@@ -63,7 +65,9 @@ func repeat(gens []*generator, in *input, reps int) map[string][]string {
 			}
 		}
 		if needModel {
+			t0 := time.Now()
 			m, perr = parseModel(in.Text)
+			addTime("(parse)", time.Since(t0))
 		}
 		for _, g := range gens {
 			var o string
@@ -82,7 +86,20 @@ func repeat(gens []*generator, in *input, reps int) map[string][]string {
 	return outs
 }
 
+var (
+	timeMu sync.Mutex
+	timeBy = map[string]time.Duration{}
+)
+
+func addTime(k string, d time.Duration) {
+	timeMu.Lock()
+	timeBy[k] += d
+	timeMu.Unlock()
+}
+
 func runOn(g *generator, m *sysl.Module, in *input) (out string) {
+	t0 := time.Now()
+	defer func() { addTime(g.name, time.Since(t0)) }()
 	defer func() {
 		if r := recover(); r != nil {
 			out = fmt.Sprintf("PANIC: %v", r)
@@ -123,20 +140,71 @@ type runner struct {
 	findings []finding
 	seenKey  map[string]int
 	cases    *common.Cases
+	jobs     []*job
 }
 
-func gensFor(kind string) []*generator {
+func gensFor(kind string, slow bool) []*generator {
 	var out []*generator
 	for i := range generators {
-		if generators[i].kind == kind {
+		if generators[i].kind == kind && generators[i].slow == slow {
 			out = append(out, &generators[i])
 		}
 	}
 	return out
 }
 
+type job struct {
+	gens   []*generator
+	in     *input
+	reps   int
+	stream string
+	after  func(outs map[string][]string)
+	outs   map[string][]string
+}
+
+// submit queues one (generators, input) job; runJobs executes the queue on a few workers (the generators
+// share no state; the outputs are judged afterwards, in submission order, so the run is reproducible)
+func (r *runner) submit(gens []*generator, in *input, reps int, stream string, after func(outs map[string][]string)) {
+	r.jobs = append(r.jobs, &job{gens: gens, in: in, reps: reps, stream: stream, after: after})
+}
+
+func (r *runner) runJobs() {
+	workers := 8
+	if n := runtime.NumCPU(); n < workers {
+		workers = n
+	}
+	ch := make(chan *job)
+	var wg sync.WaitGroup
+	for w := 0; w < workers; w++ {
+		wg.Add(1)
+		go func() {
+			defer wg.Done()
+			for j := range ch {
+				j.outs = repeat(j.gens, j.in, j.reps)
+			}
+		}()
+	}
+	for _, j := range r.jobs {
+		ch <- j
+	}
+	close(ch)
+	wg.Wait()
+	for _, j := range r.jobs {
+		r.account(j.gens, j.in, j.reps, j.stream, j.outs)
+		if j.after != nil {
+			j.after(j.outs)
+		}
+	}
+	r.jobs = nil
+}
+
 func (r *runner) judge(gens []*generator, in *input, reps int, stream string) map[string][]string {
 	outs := repeat(gens, in, reps)
+	r.account(gens, in, reps, stream, outs)
+	return outs
+}
+
+func (r *runner) account(gens []*generator, in *input, reps int, stream string, outs map[string][]string) {
 	for _, g := range gens {
 		os_ := outs[g.name]
 		n := distinct(os_)
@@ -163,7 +231,6 @@ func (r *runner) judge(gens []*generator, in *input, reps int, stream string) ma
 				replay{Generator: g.name, Input: *in, Reps: reps * 4}, len(in.Text)})
 		}
 	}
-	return outs
 }
 
 func (r *runner) flush() {
@@ -196,6 +263,10 @@ func main() {
 		return
 	}
 
+	if os.Getenv("C19_DEBUG") != "" {
+		debugDump(c)
+		return
+	}
 	reps, nModels, nForeign, cliModels, cliReps := 8, 14, 6, 1, 2
 	if c.Thorough() {
 		reps, nModels, nForeign, cliModels, cliReps = 50, 60, 30, 3, 10
@@ -203,16 +274,25 @@ func main() {
 	if c.Search {
 		reps, nModels = reps*2, nModels*3
 	}
+	if v := os.Getenv("C19_MODELS"); v != "" { // development aid
+		fmt.Sscan(v, &nModels)
+		nForeign = 2
+	}
 	c.Res.Extra["reps_in_process"] = reps
 	c.Res.Extra["reps_cli"] = cliReps
 	t0 := time.Now()
 
-	syslGens := gensFor("sysl")
-	deltaGens := gensFor("sysl-delta")
+	syslGens := gensFor("sysl", false)
+	slowGens := append(gensFor("sysl", true), gensFor("sysl-delta", true)...)
+	slowReps, slowModels := 3, 2
+	if c.Thorough() {
+		slowReps, slowModels = 12, 10
+	}
+	c.Res.Extra["reps_slow_generators"] = slowReps
 
 	// stream 1: regression corpus (inputs of earlier findings, hand-minimised)
 	for i, in := range corpusInputs() {
-		r.judge(syslGens, in, reps*2, fmt.Sprintf("corpus[%d]", i))
+		r.submit(syslGens, in, reps*2, fmt.Sprintf("corpus[%d]", i), nil)
 		c.Hist("stream:corpus")
 	}
 	// stream 2: generated models
@@ -222,29 +302,31 @@ func main() {
 		m := genModel(c.Rng.Fork(), size)
 		models = append(models, m)
 		in := inputOf(m)
-		outs := r.judge(syslGens, in, reps, "generated")
+		r.submit(syslGens, in, reps, "generated", func(outs map[string][]string) { r.addCases(m, in, outs) })
 		c.Hist(fmt.Sprintf("stream:generated-size%d", size))
 		if i < 2 {
 			c.Sample(map[string]interface{}{"model_bytes": len(in.Text), "apps": in.Apps, "head": clip(in.Text, 300)})
 		}
-		r.addCases(m, in, outs)
-		// delta: previous version = the same model with some tables/columns removed
+		// arr.ai-backed exporters, relational model, delta script (previous version = the same model with
+		// some tables / columns removed, added, retyped)
 		old := mutateForDelta(c.Rng.Fork(), m)
-		din := inputOf(m)
-		din.Old = old.render()
-		r.judge(deltaGens, din, reps, "generated-delta")
+		if i < slowModels {
+			din := inputOf(m)
+			din.Old = old.render()
+			r.submit(slowGens, din, slowReps, "generated", nil)
+		}
 	}
 	// stream 3: hostile / odd models
 	for i, in := range oddInputs(c.Rng.Fork()) {
-		r.judge(syslGens, in, reps, fmt.Sprintf("odd[%d]", i))
+		r.submit(syslGens, in, reps, fmt.Sprintf("odd[%d]", i), nil)
 		c.Hist("stream:odd")
 	}
 	// stream 4: foreign specs for import
 	for _, kind := range []string{"openapi3", "swagger", "xsd"} {
-		gs := gensFor(kind)
+		gs := gensFor(kind, false)
 		for i := 0; i < nForeign; i++ {
 			in := &input{Text: genForeign(c.Rng.Fork(), kind, 1+i%3)}
-			r.judge(gs, in, reps, "generated-"+kind)
+			r.submit(gs, in, reps, "generated-"+kind, nil)
 			c.Hist("stream:foreign-" + kind)
 		}
 		for _, f := range corpusForeign(kind, c.Thorough()) {
@@ -252,12 +334,14 @@ func main() {
 			if err != nil {
 				continue
 			}
-			r.judge(gs, &input{Text: string(b)}, reps, "repo:"+filepath.Base(f))
+			r.submit(gs, &input{Text: string(b)}, reps, "repo:"+filepath.Base(f), nil)
 			c.Hist("stream:repo-" + kind)
 		}
 	}
 	// stream 5: the repository's own models through the generators that need no project app
 	r.repoModels(reps)
+	r.runJobs()
+	c.Res.Extra["t_inprocess_s"] = int(time.Since(t0).Seconds())
 	// stream 6: CLI subprocesses
 	if bin := os.Getenv("VERIF_SYSL_BIN"); bin != "" {
 		for i := 0; i < cliModels && i < len(models); i++ {
@@ -270,6 +354,11 @@ func main() {
 		r.cases.Close()
 	}
 	c.Res.Extra["harness_wall_s"] = int(time.Since(t0).Seconds())
+	tm := map[string]int{}
+	for k, d := range timeBy {
+		tm[k] = int(d.Milliseconds())
+	}
+	c.Res.Extra["cpu_ms_by_generator"] = tm
 	r.flush()
 }
 
@@ -301,3 +390,47 @@ func doReplay(r *runner, rp *replay) {
 }
 
 func jsonStr(v interface{}) string { b, _ := json.Marshal(v); return string(b) }
+
+// debugDump (development aid, env C19_DEBUG): one generated model, and per generator the time and the head of its output
+func debugDump(c *common.Ctx) {
+	var in *input
+	switch os.Getenv("C19_DEBUG") {
+	case "corpus0":
+		in = corpusInputs()[0]
+	case "corpus1":
+		in = corpusInputs()[1]
+	case "corpus2":
+		in = corpusInputs()[2]
+	default:
+		in = inputOf(genModel(c.Rng.Fork(), 1))
+	}
+	fmt.Println(in.Text)
+	t0 := time.Now()
+	m, err := parseModel(in.Text)
+	fmt.Println("parse:", time.Since(t0), err)
+	for k := 0; k < 3; k++ {
+		t0 = time.Now()
+		parseModel(in.Text)
+		fmt.Println("parse again:", time.Since(t0), len(in.Text))
+	}
+	if os.Getenv("C19_TRACE") != "" {
+		g := findGen(os.Getenv("C19_TRACE"))
+		in.Old = in.Text
+		g.run(m, in)
+	}
+	if err != nil {
+		return
+	}
+	for i := range generators {
+		g := &generators[i]
+		if !strings.HasPrefix(g.kind, "sysl") {
+			continue
+		}
+		if g.kind == "sysl-delta" {
+			in.Old = in.Text
+		}
+		t0 := time.Now()
+		o := runOn(g, proto.Clone(m).(*sysl.Module), in)
+		fmt.Printf("---- %s (%v, %d bytes)\n%s\n", g.name, time.Since(t0), len(o), clip(o, 600))
+	}
+}
